@@ -13,8 +13,10 @@ Every case is run on the implementation twice with the same scripted draws:
 proxies; random.random() returns scripted values (edge values included), random.gauss(mu, s)
 returns mu + z*s for a scripted z, math.exp is logged with its argument.
 """
+import array
 import math
 import traceback
+import warnings
 from fractions import Fraction
 
 from vlib import cfloat, clist, cnat
@@ -152,56 +154,121 @@ class Ind(list):
     pass
 
 
+class AInd(array.array):
+    """array('d')-backed individual with a .strategy attribute."""
+    pass
+
+
+def _numpy():
+    import numpy
+    return numpy
+
+
+def _nind_class():
+    numpy = _numpy()
+    if not hasattr(_nind_class, "cls"):
+        class NInd(numpy.ndarray):
+            """numpy float64 individual with a .strategy attribute."""
+            pass
+        _nind_class.cls = NInd
+    return _nind_class.cls
+
+
 EXC = {ZeroDivisionError: "ZeroDiv", IndexError: "IndexErr", TypeError: "TypeErr", OverflowError: "Overflow"}
 
+OPS = {
+    "blend": ("crossover", "cxBlend", ("ind1", "ind2", "alpha")),
+    "sbx": ("crossover", "cxSimulatedBinary", ("ind1", "ind2", "eta")),
+    "sbxb": ("crossover", "cxSimulatedBinaryBounded", ("ind1", "ind2", "eta", "low", "up")),
+    "esblend": ("crossover", "cxESBlend", ("ind1", "ind2", "alpha")),
+    "gauss": ("mutation", "mutGaussian", ("individual", "mu", "sigma", "indpb")),
+    "poly": ("mutation", "mutPolynomialBounded", ("individual", "eta", "low", "up", "indpb")),
+    "eslog": ("mutation", "mutESLogNormal", ("individual", "c", "indpb")),
+}
+NIND = {"blend": 2, "sbx": 2, "sbxb": 2, "esblend": 2, "gauss": 1, "poly": 1, "eslog": 1}
 
-def conv(v, wrap):
-    """Parameter as given to the implementation: plain run keeps ints; logging run wraps as LF."""
+
+def conv(v, wrap, style=None):
+    """Parameter as given to the implementation: plain run keeps ints (or numpy scalars / tuples when the style asks
+    for them); logging run wraps as LF."""
+    style = style or {}
     if isinstance(v, (list, tuple)):
-        return [conv(x, wrap) for x in v]
+        l = [conv(x, wrap, style) for x in v]
+        return tuple(l) if style.get("tuple_bounds") else l
     if wrap is float:
+        if style.get("np_scalars"):
+            numpy = _numpy()
+            return numpy.int64(v) if isinstance(v, int) else numpy.float64(v)
         return v
     return LF(float(v))
 
 
-def execute(op, params, inds, us, zs, lf):
-    """Run one operator. inds = [(genes, strategy or None), ...]. Returns observation dict."""
-    from deap.tools import crossover as cxm, mutation as mum
-    wrap = LF if lf else float
+def build_objs(inds, wrap, style=None):
+    """Fresh individual objects for one call (or one sequence of calls)."""
+    style = style or {}
+    cont = style.get("container", "list")
     objs = []
-    ids = {}
     for k, (g, s) in enumerate(inds):
-        o = Ind(wrap(x) for x in g)
-        ids[id(o)] = 2 * k
-        if s is not None:
-            o.strategy = [wrap(x) for x in s]
-            ids[id(o.strategy)] = 2 * k + 1
+        if style.get("alias") and k == 1:
+            objs.append(objs[0])
+            continue
+        if cont == "array":
+            o = AInd("d", [float(x) for x in g])
+            if s is not None:
+                o.strategy = array.array("d", [float(x) for x in s])
+        elif cont == "numpy":
+            numpy = _numpy()
+            o = numpy.array([float(x) for x in g], dtype=float).view(_nind_class())
+            if s is not None:
+                o.strategy = numpy.array([float(x) for x in s], dtype=float)
+        else:
+            if style.get("np_scalars") and wrap is float:
+                numpy = _numpy()
+                o = Ind(numpy.float64(x) for x in g)
+                if s is not None:
+                    o.strategy = [numpy.float64(x) for x in s]
+            else:
+                o = Ind(wrap(x) for x in g)
+                if s is not None:
+                    o.strategy = [wrap(x) for x in s]
         objs.append(o)
+    return objs
+
+
+def execute(op, params, inds, us, zs, lf, style=None, objs=None, pobjs=None):
+    """Run one operator. inds = [(genes, strategy or None), ...] describes the contents of the individuals at the
+    time of the call; objs (optional) are the live objects to use (sequences of calls on the same objects), pobjs
+    (optional) the live parameter objects (the same bound lists passed to successive calls).
+    Returns the observation dict."""
+    import deap.tools as tools
+    from deap.tools import crossover as cxm, mutation as mum
+    style = style or {}
+    wrap = LF if lf else float
+    if objs is None:
+        objs = build_objs(inds, wrap, style)
+    ids = {}
+    for k, o in enumerate(objs):
+        ids.setdefault(id(o), 2 * k)
+        if inds[k][1] is not None:
+            ids.setdefault(id(o.strategy), 2 * k + 1)
     log = []
     _Ctx.log = log
     rp = RandProxy(us, zs, log, wrap)
     mp = MathProxy(log)
     saved = (cxm.random, mum.random, mum.math)
     cxm.random, mum.random, mum.math = rp, rp, mp
-    p = [conv(x, wrap) for x in params]
+    p = pobjs if pobjs is not None else [conv(x, wrap, style) for x in params]
+    modname, fname, argnames = OPS[op]
     try:
         try:
-            if op == "blend":
-                out = cxm.cxBlend(objs[0], objs[1], p[0])
-            elif op == "sbx":
-                out = cxm.cxSimulatedBinary(objs[0], objs[1], p[0])
-            elif op == "sbxb":
-                out = cxm.cxSimulatedBinaryBounded(objs[0], objs[1], p[0], p[1], p[2])
-            elif op == "esblend":
-                out = cxm.cxESBlend(objs[0], objs[1], p[0])
-            elif op == "gauss":
-                out = mum.mutGaussian(objs[0], p[0], p[1], p[2])
-            elif op == "poly":
-                out = mum.mutPolynomialBounded(objs[0], p[0], p[1], p[2], p[3])
-            elif op == "eslog":
-                out = mum.mutESLogNormal(objs[0], p[0], p[1])
+            if style.get("kwargs"):
+                # the public alias deap.tools.<name>, every argument by keyword
+                f = getattr(tools, fname)
+                kw = dict(zip(argnames, list(objs) + list(p)))
+                out = f(**kw)
             else:
-                raise AssertionError(op)
+                f = getattr(cxm if modname == "crossover" else mum, fname)
+                out = f(*(list(objs) + list(p)))
             exc = None
         except Exception as e:  # noqa
             out = None
@@ -209,7 +276,9 @@ def execute(op, params, inds, us, zs, lf):
     finally:
         cxm.random, mum.random, mum.math = saved
         _Ctx.log = None
-    obs = {"exc": exc, "log": log, "inputs_after": [(list(o), list(getattr(o, "strategy", []))) for o in objs]}
+    obs = {"exc": exc, "log": log,
+           "inputs_after": [(list(o), list(o.strategy) if inds[k][1] is not None else []) for k, o in enumerate(objs)],
+           "params_after": p}
     if exc is None:
         shape_ok = isinstance(out, tuple) and len(out) == len(objs)
         obs["shape_ok"] = shape_ok
@@ -223,16 +292,17 @@ def execute(op, params, inds, us, zs, lf):
                 obs["out_genes"].append(list(o))
             except TypeError:
                 obs["out_genes"].append([])
-            st = getattr(o, "strategy", None)
+            has_st = k < len(objs) and inds[k][1] is not None
+            st = getattr(o, "strategy", None) if has_st else None
             obs["out_strat"].append(list(st) if st is not None else [])
             obs["ids"].append(ids.get(id(o), 100 + 2 * k))
-            if k < len(objs) and inds[k][1] is not None:
+            if has_st:
                 obs["ids"].append(ids.get(id(st), 101 + 2 * k))
             else:
                 obs["ids"].append(2 * k + 1)
             if k >= len(objs) or o is not objs[k]:
                 obs["same_objects"] = False
-            elif inds[k][1] is not None and ids.get(id(st)) != 2 * k + 1:
+            elif has_st and st is not objs[k].strategy:
                 obs["same_objects"] = False
     return obs
 
@@ -243,6 +313,11 @@ def bits(x):
         return ("complex", repr(x))
     f = float(x)
     return "nan" if f != f else f.hex()
+
+
+def tbits(x):
+    """Value and kind of number: 'unchanged' is judged type-exactly (a float must not come back as an int, ...)."""
+    return ("int" if isinstance(x, int) else "complex" if isinstance(x, complex) else "float", bits(x))
 
 
 def same_obs(a, b):
@@ -395,14 +470,15 @@ def oracle(run, case, obs):
                 elif not (bound_at(low, i) <= c <= bound_at(up, i)):
                     bad.append("%s: gene %d of child %d outside its bounds: %r" % (op, i, k, c))
     elif op == "gauss":
-        if case["params"][2] == 0 and [bits(x) for x in outs_g[0]] != [bits(x) for x in ins[0][0]]:
+        if case["params"][2] == 0 and [tbits(x) for x in outs_g[0]] != [tbits(x) for x in ins[0][0]]:
             bad.append("mutGaussian with indpb=0 changed the individual")
     elif op == "eslog":
-        if case["params"][1] == 0 and ([bits(x) for x in outs_g[0]] != [bits(x) for x in ins[0][0]] or
-                                       [bits(x) for x in outs_s[0]] != [bits(x) for x in ins[0][1]]):
+        if case["params"][1] == 0 and ([tbits(x) for x in outs_g[0]] != [tbits(x) for x in ins[0][0]] or
+                                       [tbits(x) for x in outs_s[0]] != [tbits(x) for x in ins[0][1]]):
             bad.append("mutESLogNormal with indpb=0 changed the individual or its strategy")
-        if all(s > 0 for s in ins[0][1]) and not all(isinstance(s, float) and s > 0 for s in outs_s[0]):
-            bad.append("mutESLogNormal: a positive strategy value did not stay strictly positive")
+        for i, (s_in, s_out) in enumerate(zip(ins[0][1], outs_s[0])):
+            if s_in > 0 and not (is_finite_real(s_out) and s_out > 0):
+                bad.append("mutESLogNormal: positive strategy value %d did not stay strictly positive: %r -> %r" % (i, s_in, s_out))
     return bad
 
 
@@ -462,6 +538,10 @@ def gen_bound_pair(rng):
         lo = -w / 2
     elif r < 0.6:
         lo = -w
+    elif r < 0.68:
+        # large offset with a tiny spread (1e9 +- 1e-3 and the like): only a few thousand floats between the bounds
+        lo = rng.choice([-1, 1]) * rng.choice([1e9, 1e8, 123456789.0])
+        w = rng.choice([1e-3, 1e-6, 1.0, 1e-2])
     else:
         lo = rng.choice([-1, 1]) * 10.0 ** rng.uniform(-6, 6)
     up = lo + w
@@ -495,9 +575,13 @@ def gen_partner(rng, x, lo, up):
     """Second parent at one locus: equal, within the 1e-14 guard, just outside it, or independent."""
     r = rng.random()
     flo, fup = float(lo), float(up)
-    if r < 0.15:
+    if r < 0.12:
         return x
-    if r < 0.25:
+    if r < 0.16:
+        # near ties: one ulp, a few ulps, 2**-40 relative
+        y = rng.choice([math.nextafter(x, math.inf), math.nextafter(x, -math.inf),
+                        x * (1.0 + 2.0 ** -40), x * (1.0 - 2.0 ** -40), x + 4 * math.ulp(x)])
+    elif r < 0.25:
         y = x + rng.choice([-1, 1]) * rng.choice([1e-15, 5e-15, 1e-14])
     elif r < 0.35:
         y = x + rng.choice([-1, 1]) * rng.choice([1.0000000000001e-14, 2e-14, 1e-13])
@@ -523,11 +607,14 @@ def gen_len(rng):
 
 
 def gen_free_genes(rng, n):
-    sc = rng.choice([1e-6, 1e-3, 1.0, 1.0, 10.0, 1e3, 1e6])
+    sc = rng.choice([1e-9, 1e-6, 1e-3, 1.0, 1.0, 10.0, 1e3, 1e6])
+    off = rng.choice([0.0, 0.0, 0.0, 1e9, -1e9]) if sc <= 1e-3 else 0.0      # 1e9 +- 1e-3: large offset, tiny spread
     out = []
     for _ in range(n):
         r = rng.random()
-        if r < 0.08:
+        if off:
+            out.append(off + rng.uniform(-sc, sc))
+        elif r < 0.08:
             out.append(0.0)
         elif r < 0.12:
             out.append(-0.0)
@@ -552,6 +639,29 @@ def gen_indpb(rng):
     if r < 0.6:
         return rng.choice([1, 1.0])
     return rng.random()
+
+
+def ctor(op, params, inds, alias=False):
+    """Constructor and arguments of the Corr.C10.case for one call."""
+    i0 = cind(0, inds[0][0], inds[0][1])
+    i1 = cind(1, inds[1][0], inds[1][1]) if len(inds) > 1 else None
+    if op == "blend":
+        return "CBlendA %s %s" % (cfloat(params[0]), i0) if alias else "CBlend %s %s %s" % (cfloat(params[0]), i0, i1)
+    if op == "sbx":
+        return "CSbxA %s %s" % (cfloat(params[0]), i0) if alias else "CSbx %s %s %s" % (cfloat(params[0]), i0, i1)
+    if op == "sbxb":
+        if alias:
+            return "CSbxBA %s %s %s %s" % (cfloat(params[0]), cbnd(params[1]), cbnd(params[2]), i0)
+        return "CSbxB %s %s %s %s %s" % (cfloat(params[0]), cbnd(params[1]), cbnd(params[2]), i0, i1)
+    if op == "esblend":
+        return "CESBlendA %s %s" % (cfloat(params[0]), i0) if alias else "CESBlend %s %s %s" % (cfloat(params[0]), i0, i1)
+    if op == "gauss":
+        return "CGauss %s %s %s %s" % (cbnd(params[0]), cbnd(params[1]), cfloat(params[2]), i0)
+    if op == "poly":
+        return "CPoly %s %s %s %s %s" % (cfloat(params[0]), cbnd(params[1]), cbnd(params[2]), cfloat(params[3]), i0)
+    if op == "eslog":
+        return "CESLog %s %s %s" % (cfloat(params[0]), cfloat(params[1]), i0)
+    raise AssertionError(op)
 
 
 def gen_stress(rng):
@@ -630,10 +740,31 @@ def main(run):
     terms, cases = [], []
     stats = {}
 
-    def do_case(op, params, inds, us, zs, in_domain, ctor_args):
+    VARIANTS = [{"container": "array"}, {"container": "numpy"}, {"np_scalars": True}, {"kwargs": True},
+                {"tuple_bounds": True}, {"kwargs": True, "tuple_bounds": True, "container": "numpy"}]
+
+    def cparams_same(a, b):
+        """Parameter objects after the call hold what they held before (values, lengths)."""
+        def flat(v):
+            return [bits(x) for x in v] if isinstance(v, (list, tuple)) else bits(v)
+        return [flat(x) for x in a] == [flat(x) for x in b]
+
+    def do_case(op, params, inds, us, zs, in_domain, ctor_args, live=None, alias=False, variant=None, tag=None):
+        """live = (plain objects, LF objects, plain parameter objects, LF parameter objects) for a step of a
+        sequence on the same objects; alias = the same individual object is passed as both parents;
+        variant: None = pick one at random for half of the cases, False = none."""
         case = {"op": op, "params": params, "inds": inds, "us": us, "zs": zs, "in_domain": in_domain}
-        plain = execute(op, params, inds, us, zs, lf=False)
-        logged = execute(op, params, inds, us, zs, lf=True)
+        if alias:
+            case["alias"] = True
+        if tag:
+            case["tag"] = tag
+        style = {"alias": True} if alias else None
+        if live is not None:
+            plain = execute(op, params, inds, us, zs, lf=False, objs=live[0], pobjs=live[2])
+            logged = execute(op, params, inds, us, zs, lf=True, objs=live[1], pobjs=live[3])
+        else:
+            plain = execute(op, params, inds, us, zs, lf=False, style=style)
+            logged = execute(op, params, inds, us, zs, lf=True, style=style)
         if not same_obs(plain, logged) or [e for e in plain["log"]] != [e for e in logged["log"] if e[0] not in ("pow",)]:
             # the instrumentation changed the behaviour: machinery problem, never blamed on DEAP silently
             run.disagreements.append({"group": "instrumentation", "index": len(terms), "case": case,
@@ -643,6 +774,10 @@ def main(run):
             if e[0] == "pow" and not isinstance(e[3], str):
                 if bits(float.__pow__(e[1], e[2])) != bits(e[3]):
                     run.disagreements.append({"group": "pow-table", "index": len(terms), "case": case, "event": repr(e)})
+        # the parameter objects (bound / mean / deviation sequences) are values for the model: they must come back as given
+        if not cparams_same(plain["params_after"], params):
+            run.disagreements.append({"group": "params-mutated", "index": len(terms), "case": case,
+                                      "after": repr(plain["params_after"])[:800]})
         changed = plain["exc"] is not None or any(
             [bits(x) for x in a] != [bits(x) for x in b[0]] for a, b in zip(plain.get("out_genes", []), inds))
         stats[op] = stats.get(op, 0) + 1
@@ -653,21 +788,53 @@ def main(run):
         if in_domain:
             for what in oracle(run, case, plain):
                 run.oracle_violation(what, case, observed={k: repr(v)[:600] for k, v in plain.items() if k != "log"})
-        elif plain["exc"] is not None and plain["exc"].startswith("Other:"):
+        # ---- the same call through another route / representation: judged by the statement, and it must give
+        # the very same numbers as the list-of-floats call
+        if live is None and not alias and variant is not False and (variant is not None or rng.random() < 0.5):
+            st = variant if variant is not None else rng.choice(VARIANTS)
+            key = "variant:" + "+".join(sorted(k if v is True else "%s=%s" % (k, v) for k, v in st.items()))
+            stats[key] = stats.get(key, 0) + 1
+            with warnings.catch_warnings():
+                warnings.simplefilter("ignore")
+                alt = execute(op, params, inds, us, zs, lf=False, style=st)
+            vcase = dict(case, style=st)
+            if in_domain:
+                for what in oracle(run, vcase, alt):
+                    run.oracle_violation(what + " [" + key + "]", vcase,
+                                         observed={k: repr(v)[:600] for k, v in alt.items() if k != "log"})
+            uses_numpy = st.get("np_scalars") or st.get("container") == "numpy"
+            if not same_obs(plain, alt) and (in_domain or not uses_numpy):
+                # (numpy float64 scalars give inf/nan instead of ZeroDivisionError / complex: outside the statement's
+                # domain the numpy-typed call legitimately differs, so it is compared only inside the domain)
+                if in_domain:
+                    run.oracle_violation("result depends on the representation of the same numbers [" + key + "]", vcase,
+                                         observed={"list": repr({k: v for k, v in plain.items() if k != "log"})[:600],
+                                                   "variant": repr({k: v for k, v in alt.items() if k != "log"})[:600]})
+                else:
+                    run.disagreements.append({"group": "representation", "index": len(terms), "case": vcase,
+                                              "plain": repr(plain)[:800], "variant": repr(alt)[:800]})
+        if not in_domain and plain["exc"] is not None and plain["exc"].startswith("Other:"):
             run.notes.append("out-of-domain case raised %s (skipped)" % plain["exc"])
-            return
+            return plain
         if plain["exc"] is not None and plain["exc"].startswith("Other:"):
-            return          # already reported by the oracle; no Coq term can express it
+            return plain    # already reported by the oracle; no Coq term can express it
         if plain["exc"] is None and not all(is_finite_real(x) or (isinstance(x, float))
                                             for g in plain["out_genes"] + plain["out_strat"] for x in g):
             # a complex (or non-numeric) gene was written: reported by the oracle when in domain; no float term exists
             if not in_domain:
                 run.notes.append("out-of-domain case produced a non-real gene (skipped in correspondence)")
             stats[op + ":nonreal"] = stats.get(op + ":nonreal", 0) + 1
-            return
+            return plain
         evs = clist([cev(e) for e in logged["log"]])
-        terms.append("%s %s %s" % (ctor_args, evs, coutcome(plain)))
+        if alias and plain["exc"] is None:
+            # one object: what remains is the second child
+            single = {"exc": None, "out_genes": plain["out_genes"][1:2], "out_strat": plain["out_strat"][1:2],
+                      "ids": [plain["ids"][2], plain["ids"][3] if inds[0][1] is not None else 1]}
+            terms.append("%s %s %s" % (ctor_args, evs, coutcome(single)))
+        else:
+            terms.append("%s %s %s" % (ctor_args, evs, coutcome(plain)))
         cases.append(case)
+        return plain
 
     N = run.scale(260, 5000)
 
@@ -732,6 +899,8 @@ def main(run):
         eta = gen_eta(rng)
         indpb = gen_indpb(rng)
         us = [gen_u(rng, 0.3) for _ in range(2 * n)]
+        if 0 < indpb < 1 and rng.random() < 0.3:        # the threshold itself: `random() <= indpb`
+            us = [float(indpb) if i % 2 == 0 and rng.random() < 0.5 else u for i, u in enumerate(us)]
         do_case("poly", [eta, low, up, indpb], [(g, None)], us, [], True,
                 "CPoly %s %s %s %s %s" % (cfloat(eta), cbnd(low), cbnd(up), cfloat(indpb), cind(0, g, None)))
 
@@ -743,10 +912,12 @@ def main(run):
     for (lo, hi) in grid_bounds:
         w = hi - lo
         pts = [lo, math.nextafter(lo, math.inf), lo + 0.3 * w, lo + 0.5 * w, math.nextafter(hi, -math.inf), hi]
+        if lo == 0.0:
+            pts += [1e-14, math.nextafter(1e-14, 1.0)]     # |x1 - x2| exactly the guard constant, and one ulp above it
         for eta in grid_eta:
             for rand in grid_rand:
                 for a in pts:
-                    for b in (pts if run.thorough else [lo, lo + 0.3 * w, hi]):
+                    for b in (pts if run.thorough else [lo, lo + 0.3 * w, hi] + pts[6:]):
                         for u3 in (0.5, 0.75):
                             do_case("sbxb", [eta, lo, hi], [([a], None), ([b], None)], [0.5, rand, u3], [], True,
                                     "CSbxB %s %s %s %s %s" % (cfloat(eta), cbnd(lo), cbnd(hi), cind(0, [a], None), cind(1, [b], None)))
@@ -771,6 +942,8 @@ def main(run):
         us = [gen_u(rng, 0.0) for _ in range(n)]
         if indpb == 0 and rng.random() < 0.6:      # the boundary of `random() < indpb`: a draw of exactly 0.0
             us = [0.0 if rng.random() < 0.6 else u for u in us]
+        elif 0 < indpb < 1 and rng.random() < 0.3:  # a draw equal to indpb (not selected: `<`), and one ulp below (selected)
+            us = [rng.choice([float(indpb), math.nextafter(float(indpb), 0.0)]) if rng.random() < 0.5 else u for u in us]
         zs = [gen_z(rng) for _ in range(n)]
         do_case("gauss", [mu, sigma, indpb], [(g, None)], us, zs, True,
                 "CGauss %s %s %s %s" % (cbnd(mu), cbnd(sigma), cfloat(indpb), cind(0, g, None)))
@@ -785,13 +958,119 @@ def main(run):
         us = [gen_u(rng, 0.0) for _ in range(n)]
         if indpb == 0 and rng.random() < 0.6:
             us = [0.0 if rng.random() < 0.6 else u for u in us]
+        elif 0 < indpb < 1 and rng.random() < 0.3:
+            us = [rng.choice([float(indpb), math.nextafter(float(indpb), 0.0)]) if rng.random() < 0.5 else u for u in us]
         zs = [gen_z(rng) for _ in range(2 * n + 1)]
         do_case("eslog", [c, indpb], [(g, st)], us, zs, True,
                 "CESLog %s %s %s" % (cfloat(c), cfloat(indpb), cind(0, g, st)))
 
+    # ---- the same individual object passed as both parents ----------------------------------------------
+    for _ in range(run.scale(40, 800)):
+        op = rng.choice(["blend", "sbx", "sbxb", "esblend"])
+        n = gen_len(rng)
+        if op == "sbxb":
+            low, up, lows, ups = gen_bounds(rng, n)
+            g = [gen_gene(rng, lows[i], ups[i]) for i in range(n)]
+            params, us, st = [gen_eta(rng), low, up], [gen_u(rng, 0.8) for _ in range(3 * n)], None
+        elif op == "sbx":
+            g, st = gen_free_genes(rng, n), None
+            params, us = [gen_eta(rng)], [gen_u(rng, 0.3) for _ in range(n)]
+        else:
+            g = gen_free_genes(rng, n)
+            st = [10.0 ** rng.uniform(-6, 3) for _ in range(n)] if op == "esblend" else None
+            params, us = [gen_alpha(rng)], [gen_u(rng, 0.0) for _ in range(2 * n)]
+        inds = [(g, st), (g, st)]
+        do_case(op, params, inds, us, [], True, ctor(op, params, inds, alias=True), alias=True, tag="alias")
+
+    # ---- sequences of calls on the same objects (individuals, strategy lists, bound / mean / deviation lists),
+    # two clients interleaved; every step is judged by the oracle and re-executed by the model on its own ----------
+    def snapshot(objs, es):
+        return [([x for x in o], [x for x in o.strategy] if es else None) for o in objs]
+
+    def as_float_inds(inds):
+        return [([float(x) for x in g], None if s is None else [float(x) for x in s]) for g, s in inds]
+
+    for _ in range(run.scale(60, 1200)):
+        family = rng.choice(["bounded", "bounded", "free", "es"])
+        clients = []
+        for _c in range(2):
+            n1 = gen_len(rng)
+            n2 = n1 if rng.random() < 0.7 else gen_len(rng)
+            c = {"es": family == "es"}
+            if family == "bounded":
+                low, up, lows, ups = gen_bounds(rng, max(n1, n2))
+                c["bounds"] = (low, up)
+                inds = [([gen_gene(rng, lows[i], ups[i]) for i in range(n1)], None),
+                        ([gen_gene(rng, lows[i], ups[i]) for i in range(n2)], None)]
+                c["pp"] = [conv(low, float), conv(up, float)]
+                c["pl"] = [conv(low, LF), conv(up, LF)]
+            elif family == "free":
+                inds = [(gen_free_genes(rng, n1), None), (gen_free_genes(rng, n2), None)]
+                mu = [rng.uniform(-1, 1) for _ in range(max(n1, n2))] if rng.random() < 0.6 else rng.choice([0, 0.0, 1.5])
+                sg = [abs(rng.uniform(-2, 2)) for _ in range(max(n1, n2))] if rng.random() < 0.6 else rng.choice([1, 0.5, 1e-3])
+                if isinstance(mu, list) and rng.random() < 0.3:
+                    sg = mu = [abs(x) for x in mu]          # the very same list object as mean and as deviation
+                c["musg"] = (mu, sg)
+                pm, lm = conv(mu, float), conv(mu, LF)
+                c["pp"] = [pm, pm if sg is mu else conv(sg, float)]
+                c["pl"] = [lm, lm if sg is mu else conv(sg, LF)]
+            else:
+                inds = [(gen_free_genes(rng, n1), [10.0 ** rng.uniform(-6, 3) for _ in range(n1)]),
+                        (gen_free_genes(rng, n2), [10.0 ** rng.uniform(-6, 3) for _ in range(n2)])]
+                c["pp"], c["pl"] = [], []
+            c["plain"] = build_objs(inds, float)
+            c["lf"] = build_objs(inds, LF)
+            clients.append(c)
+        for _step in range(rng.randint(3, 6)):
+            c = rng.choice(clients)
+            if family == "bounded":
+                op = rng.choice(["sbxb", "poly", "poly"])
+                eta = gen_eta(rng)
+                low, up = c["bounds"]
+                if op == "sbxb":
+                    sel, params = [0, 1], [eta, low, up]
+                    pp, pl = [eta] + c["pp"], [LF(float(eta))] + c["pl"]
+                    us = [gen_u(rng, 0.8) for _ in range(3 * 12)]
+                else:
+                    indpb = gen_indpb(rng)
+                    sel, params = [rng.randint(0, 1)], [eta, low, up, indpb]
+                    pp, pl = [eta] + c["pp"] + [indpb], [LF(float(eta))] + c["pl"] + [LF(float(indpb))]
+                    us = [gen_u(rng, 0.3) for _ in range(2 * 12)]
+                zs = []
+            elif family == "free":
+                op = rng.choice(["blend", "sbx", "gauss", "gauss"])
+                if op == "gauss":
+                    indpb = gen_indpb(rng)
+                    mu, sg = c["musg"]
+                    sel, params = [rng.randint(0, 1)], [mu, sg, indpb]
+                    pp, pl = c["pp"] + [indpb], c["pl"] + [LF(float(indpb))]
+                else:
+                    a = gen_alpha(rng) if op == "blend" else gen_eta(rng)
+                    sel, params, pp, pl = [0, 1], [a], [a], [LF(float(a))]
+                us = [gen_u(rng, 0.2) for _ in range(12)]
+                zs = [gen_z(rng) for _ in range(12)]
+            else:
+                op = rng.choice(["esblend", "eslog", "eslog"])
+                if op == "esblend":
+                    a = gen_alpha(rng) * 0.25
+                    sel, params, pp, pl = [0, 1], [a], [a], [LF(float(a))]
+                else:
+                    cc, indpb = rng.choice([0.1, 1, 1.0, 0.5]), gen_indpb(rng)
+                    sel, params = [rng.randint(0, 1)], [cc, indpb]
+                    pp, pl = [cc, indpb], [LF(float(cc)), LF(float(indpb))]
+                us = [gen_u(rng, 0.0) for _ in range(24)]
+                zs = [gen_z(rng) for _ in range(25)]
+            po = [c["plain"][k] for k in sel]
+            lo_ = [c["lf"][k] for k in sel]
+            inds = as_float_inds(snapshot(po, c["es"]))
+            # trim the scripts to what the call consumes at most, so the model's "whole stream consumed" test is about
+            # the events only (the log, not the script, goes into the term)
+            do_case(op, params, inds, us, zs, True, ctor(op, params, inds), live=(po, lo_, pp, pl), tag="sequence")
+
     # ---- error branches and inputs outside the statement's domain: correspondence only ---------------
     for _ in range(run.scale(120, 1200)):
-        kind = rng.choice(["short-bounds", "low==up", "outside", "outside", "exp-overflow", "short-strategy", "short-mu", "eta=-1"])
+        kind = rng.choice(["short-bounds", "low==up", "outside", "outside", "exp-overflow", "short-strategy", "short-mu", "eta=-1",
+                           "empty", "sbxb-low==up"])
         n = rng.randint(1, 5)
         if kind == "short-bounds":
             n = rng.randint(2, 5)
@@ -807,6 +1086,20 @@ def main(run):
             else:
                 do_case("poly", [1.0, low, up, 1.0], [(g1, None)], [gen_u(rng) for _ in range(2 * n)], [], False,
                         "CPoly %s %s %s %s %s" % (cfloat(1.0), cbnd(low), cbnd(up), cfloat(1.0), cind(0, g1, None)))
+        elif kind == "empty":
+            # size 0 (the statement starts at 1 gene): loops do nothing; mutESLogNormal divides by sqrt(0)
+            op = rng.choice(["blend", "sbx", "sbxb", "esblend", "gauss", "poly", "eslog"])
+            other = gen_free_genes(rng, rng.randint(0, 2))
+            params = {"blend": [0.5], "sbx": [2.0], "sbxb": [2.0, 0.0, [1.0] * len(other)], "esblend": [0.5], "gauss": [0.0, [], 0.5],
+                      "poly": [2.0, [], 1.0, 0.5], "eslog": [1.0, 0.5]}[op]
+            es = op in ("esblend", "eslog")
+            inds = [([], [] if es else None)] + ([(other, [1.0] * len(other) if es else None)] if NIND[op] == 2 else [])
+            do_case(op, params, inds, [gen_u(rng) for _ in range(4)], [gen_z(rng) for _ in range(4)], False, ctor(op, params, inds))
+        elif kind == "sbxb-low==up":
+            b = rng.choice([0.0, 1.0, -2.5, 1e9])
+            params = [gen_eta(rng), b, b]
+            inds = [([b] * n, None), ([b] * n, None)]
+            do_case("sbxb", params, inds, [gen_u(rng, 0.8) for _ in range(3 * n)], [], False, ctor("sbxb", params, inds))
         elif kind == "low==up":
             b = rng.choice([0.0, 1.0, -2.5])
             g = [b] * n
